@@ -11,7 +11,7 @@ trap cleanup EXIT
 cd "$WT"
 applies=true; git apply "$D/patch.diff" 2>/dev/null || git apply --3way "$D/patch.diff" 2>/dev/null || applies=false
 if ! $applies; then echo "{\"dir\":\"$D\",\"applies\":false}"; exit 0; fi
-git diff > "$WT/.applied.diff"
+git diff HEAD > "$WT/.applied.diff"; git reset -q
 builds=true; go build ./... 2>/dev/null || builds=false
 suite=$(/verif/tools/suite.sh "$WT" 2>&1 | head -1)
 suite_ok=false; echo "$suite" | grep -q "stable-pass missing: 0; new failures: 0" && suite_ok=true
